@@ -240,6 +240,16 @@ struct cat_command *w_group(size_t ncmd, bool disable)
         W.grp[W.ngroups++] = g;
         return arr;
 }
+/* a group that is a view of (a prefix of) an array another group already owns: the same commands are registered a second time, under this group's disable flag */
+void w_group_view(struct cat_command *arr, size_t ncmd, bool disable)
+{
+        if (W.ngroups >= MAXGRP || W.ncmds + ncmd > MAXCMD) { fprintf(stderr, "table too large\n"); exit(2); }
+        struct cat_command_group *g = xalloc(sizeof *g);
+        memset(g, 0, sizeof *g);
+        g->cmd = arr; g->cmd_num = ncmd; g->disable = disable;
+        for (size_t j = 0; j < ncmd; j++) { W.cmd[W.ncmds] = &arr[j]; W.grp_of[W.ncmds] = (int)W.ngroups; W.ncmds++; }
+        W.grp[W.ngroups++] = g;
+}
 struct cat_variable *w_vars(struct cat_command *c, size_t nv)
 {
         if (nv == 0) {          /* no variables: var_num 0 with var NULL or (one in six) with var pointing at an empty table */
@@ -894,7 +904,7 @@ void w_describe(FILE *f)
                 if (c->description) { fmt_bytes(nb, sizeof nb, (const uint8_t *)c->description, strlen(c->description)); fprintf(f, " desc=\"%s\"", nb); }
                 for (size_t j = 0; j < c->var_num; j++) {
                         const struct cat_variable *v = &c->var[j];
-                        char vb[200]; fmt_bytes(vb, sizeof vb, v->data, v->data_size > 40 ? 40 : v->data_size);
+                        char vb[200]; if (v->data) fmt_bytes(vb, sizeof vb, v->data, v->data_size > 40 ? 40 : v->data_size); else strcpy(vb, "(no storage)");
                         fprintf(f, "\n      var#%zu %s%zu %s name=%s cb[%s%s] data=\"%s\"", j, (unsigned)v->type < 5 ? tn[v->type] : "?", v->data_size,
                                 (unsigned)v->access < 3 ? an[v->access] : "?", v->name ? v->name : "-", v->read ? "r" : "", v->write ? "w" : "", vb);
                 }
